@@ -25,7 +25,15 @@ def main(argv=None) -> int:
         if args.replay:
             return mod.replay(ctx, args.replay)
         a_ok = True if args.skip_proofs else part_a(ctx)
-        mod.run(ctx, a_ok)
+        try:
+            mod.run(ctx, a_ok)
+        except HarnessError:
+            raise
+        except Exception as e:  # noqa: BLE001
+            # the harness tripped over something the implementation returned: the correspondence no longer checks
+            ctx.violation(f"the correspondence run of {args.pid} aborted ({type(e).__name__}: {str(e)[:200]})",
+                          {"broken": f"harness/props/{args.pid.lower()}.py run()", "traceback": traceback.format_exc()[-3000:]},
+                          {"part": "B", "broken": "harness run aborted"}, found_input=False)
         return ctx.finish()
     except HarnessError as e:
         print(f"HARNESS-ERROR {args.pid}: {e}", file=sys.stderr)
